@@ -1,8 +1,62 @@
 """C13 — schedule modifications change exactly what they document."""
 from .schedops import *
+from ..core import *
+from .. import models as M, netbuild as NB
+from .tourops import F
 from . import schedops as SO
 from . import C10 as _C10
 PROPERTY = 'C13'
 ASSUMPTIONS = _C10.ASSUMPTIONS + ['op-specific effects and frame conditions are evaluated on the concrete structure of each symbolic path; "input schedule untouched" compares the input value before and after the call (persistent maps are modelled as copy-on-write values)']
 BOUNDS = _C10.BOUNDS; OUTSIDE = _C10.OUTSIDE; REQUIRED_COVERS = _C10.REQUIRED_COVERS
-def jobs(tier, seed): return SO.all_jobs(tier, seed, ['C13'])
+def jobs(tier, seed):
+    return SO.all_jobs(tier, seed, ['C13']) + [dict(name='train formation order, %d vehicles' % n, func='job_formation', kwargs=dict(n=n)) for n in range(0, 4 if tier == 'quick' else 6)]
+
+def job_formation(name, n):
+    """TrainFormation::replace / remove / add_at_tail executed from MIR on formations of n vehicles (ids concrete, positions exhaustive)"""
+    from ..harness import JobCtx
+    J = JobCtx(name, CRATES); ex = J.ex
+    vt = M.arc(Opaque('vehicle type'))
+    def veh(i): return NB.S('Vehicle', idx=NB.vehidx(i), vehicle_type=vt)
+    def ids(tf): return [conc(F(c.v, 'Vehicle', 'idx').fields[0]) for c in F(tf, 'TrainFormation', 'formation').cells]
+    def form(): return NB.S('TrainFormation', formation=VecVal([Cell(veh(i)) for i in range(n)]))
+    base = list(range(n))
+    cases = [('add_at_tail', None)] + [('remove', i) for i in range(n + 1)] + [('replace', i) for i in range(n + 1)]
+    for what, i in cases:
+        def body():
+            ex.pc_global = []; ex.inputs = {}
+            tf = form()
+            if what == 'add_at_tail': return ex.call('TrainFormation::add_at_tail', [Ref(Cell(tf)), veh(99)]), ids(tf)
+            if what == 'remove': return ex.call('TrainFormation::remove', [Ref(Cell(tf)), NB.vehidx(i)]), ids(tf)
+            return ex.call('TrainFormation::replace', [Ref(Cell(tf)), NB.vehidx(i), veh(99)]), ids(tf)
+        for pc, r in J.explore(body):
+            if isinstance(r, Panic): J.panic(pc, r, clause='effect: train formation operations do not panic'); continue
+            res, inp = r; J.reached += 1
+            def mk(exp, what=what, i=i):
+                # native replay through the injected accessor (TrainFormation's editing functions are crate-private)
+                def f(m):
+                    net = NB.build(ex, NB.Spec(nloc=2, trips=[dict(vt=0)], maint=0))
+                    return dict(signature='train formation %s' % what, what='TrainFormation::%s on a formation of %d vehicles (position %s) does not give %s' % (what, n, i, exp),
+                                scenario=dict(instance=NB.to_json(net, m), ops=[dict(op='formation_op', n=n, what=what, i=i or 0)]), expect=[exp], formation=True)
+                return f
+            vid = lambda xs: dict(ok=['veh_%d' % x for x in xs])
+            J.prove(pc, inp == base, 'effect: the input formation stays untouched')
+            if what == 'add_at_tail': J.prove(pc, ids(res) == base + [99], 'effect: additions go to the tail of the formation', mk(vid(base + [99])))
+            elif what == 'remove':
+                if i < n: J.prove(pc, res.variant == 0 and ids(res.fields[0]) == [x for x in base if x != i], 'effect: removals keep the order of the formation', mk(vid([x for x in base if x != i])))
+                else: J.prove(pc, res.variant == 1, 'effect: removing a vehicle that is not in the formation is refused')
+            else:
+                if i < n: J.prove(pc, res.variant == 0 and ids(res.fields[0]) == [99 if x == i else x for x in base], 'effect: a replacing vehicle takes the replaced one\'s position', mk(vid([99 if x == i else x for x in base])))
+                else: J.prove(pc, res.variant == 1, 'effect: replacing a vehicle that is not in the formation is refused')
+            J.sample('%s(%s) on a formation of %d' % (what, i, n))
+    return J.result()
+
+def confirm(c):
+    if c.get('formation'):
+        from .. import replay
+        out = []
+        for prof in ('dev', 'release'):
+            obs = replay.run(c['scenario'], prof)
+            out.append('%s: native %s, documented %s' % (prof, obs, c['expect']))
+            if obs == c['expect']: return False, '; '.join(out)
+        return True, '; '.join(out)
+    return SO.confirm(c)
